@@ -3,6 +3,7 @@
 package alt
 
 import (
+	"encoding/json"
 	"fmt"
 	"reflect"
 	"time"
@@ -70,6 +71,8 @@ func Generify(v any, options ...*Options) (n gen.Node) {
 			n = gen.Time(tv)
 		case gen.Time:
 			n = tv
+		case json.Number:
+			n = gen.Big(tv)
 		case []any:
 			a := make(gen.Array, len(tv))
 			for i, m := range tv {
@@ -151,6 +154,8 @@ func GenAlter(v any, options ...*Options) (n gen.Node) {
 			n = tv
 		case time.Time:
 			n = gen.Time(tv)
+		case json.Number:
+			n = gen.Big(tv)
 		case []any:
 			a := *(*gen.Array)(unsafe.Pointer(&tv))
 			for i, m := range tv {
@@ -199,6 +204,16 @@ func reflectGenValue(rv reflect.Value, opt *Options) (v gen.Node) {
 	switch rv.Kind() {
 	case reflect.Invalid, reflect.Uintptr, reflect.UnsafePointer, reflect.Chan, reflect.Func, reflect.Interface:
 		v = nil
+	case reflect.Bool:
+		v = gen.Bool(rv.Bool())
+	case reflect.Int, reflect.Int8, reflect.Int16, reflect.Int32, reflect.Int64:
+		v = gen.Int(rv.Int())
+	case reflect.Uint, reflect.Uint8, reflect.Uint16, reflect.Uint32, reflect.Uint64:
+		v = gen.Int(int64(rv.Uint()))
+	case reflect.Float32, reflect.Float64:
+		v = gen.Float(rv.Float())
+	case reflect.String:
+		v = gen.String(rv.String())
 	case reflect.Complex64, reflect.Complex128:
 		v = reflectGenComplex(rv, opt)
 	case reflect.Map:
